@@ -3,6 +3,7 @@
 #include <stdio.h>
 #include <stdlib.h>
 #include <string.h>
+unsigned int verif_rt_section;
 static uint64_t *vals; static size_t nvals, cur; static int loaded;
 static void load(void)
 {
